@@ -128,12 +128,12 @@ theorem closed_scope_gains_no_child (n : Nat) (w : World Rat) (s : ScopeId) (hs 
     ((w.runFuel n).1.scope s).interruptable = false ∧
     ((w.runFuel n).1.scope s).children.Sublist (w.scope s).children ∧
     ((w.runFuel n).1.scope s).volatileChildren.Sublist (w.scope s).volatileChildren :=
-  ((run_oext n w).scopes.2 s hs).2.2.2.2.2 hc
+  ((run_oext n w).scopes.2 s hs).2.2.2.2.2.2.2.2 hc
 
 /-- **the failures a scope has recorded are never removed or reordered** -/
 theorem failures_append_only (n : Nat) (w : World Rat) (s : ScopeId) (hs : s < w.scopes.size) :
     (w.scope s).failures <+: ((w.runFuel n).1.scope s).failures :=
-  ((run_oext n w).scopes.2 s hs).2.2.2.2.1
+  ((run_oext n w).scopes.2 s hs).2.2.2.2.2.2.2.1
 
 /-- **a scope is the same scope for ever**: same `_body_done` flag, same private cancel signal, same instance -/
 theorem scope_identity (n : Nat) (w : World Rat) (s : ScopeId) (hs : s < w.scopes.size) :
@@ -141,6 +141,15 @@ theorem scope_identity (n : Nat) (w : World Rat) (s : ScopeId) (hs : s < w.scope
     ((w.runFuel n).1.scope s).name = (w.scope s).name ∧ ((w.runFuel n).1.scope s).inst = (w.scope s).inst :=
   let k := (run_oext n w).scopes.2 s hs
   ⟨k.1, k.2.1, k.2.2.1, k.2.2.2.1⟩
+
+/-- **an `until` scope listens to the same notification, with the same interrupt signal, on behalf of the same activity, for
+ever** (C07: what ends the block is the notification it was entered with) -/
+theorem scope_listens_forever (n : Nat) (w : World Rat) (s : ScopeId) (hs : s < w.scopes.size) :
+    ((w.runFuel n).1.scope s).activity = (w.scope s).activity ∧
+    ((w.runFuel n).1.scope s).notification = (w.scope s).notification ∧
+    ((w.runFuel n).1.scope s).interrupt = (w.scope s).interrupt :=
+  let k := (run_oext n w).scopes.2 s hs
+  ⟨k.2.2.2.2.1, k.2.2.2.2.2.1, k.2.2.2.2.2.2.1⟩
 
 /-- **a closed queue stays closed and nothing is ever added to it**: its buffer is a suffix of what it was -/
 theorem closed_queue_forever (n : Nat) (w : World Rat) (q : Name) (hq : q < w.queues.size)
